@@ -241,7 +241,7 @@ extern "C" int engineexport_initialize_grid (
       mesh_x.resize(n_meshes*n_species);
       for(size_t i=0; i<mesh_x.size(); i++)
         {
-        mesh_x[i] = (mesh_state[i]>0) ? static_cast<double>(std::poisson_distribution<int>(mesh_state[i])(rng)) : 0;
+        mesh_x[i] = (mesh_state[i]>0) ? static_cast<double>(std::poisson_distribution<long long>(mesh_state[i])(rng)) : 0;
         }
       mesh_x = SpeciesFirstToMeshFirstArray(mesh_x, n_species, n_meshes);
       }
@@ -374,7 +374,7 @@ extern "C" int engineexport_initialize_graph (
       mesh_x.resize(n_meshes*n_species);
       for(size_t i=0; i<mesh_x.size(); i++)
         {
-        mesh_x[i] = (mesh_state[i]>0) ? static_cast<double>(std::poisson_distribution<int>(mesh_state[i])(rng)) : 0;
+        mesh_x[i] = (mesh_state[i]>0) ? static_cast<double>(std::poisson_distribution<long long>(mesh_state[i])(rng)) : 0;
         }
       mesh_x = SpeciesFirstToMeshFirstArray(mesh_x, n_species, n_meshes);
       }
